@@ -9,4 +9,5 @@ func init() {
 	fw.Families["C01"] = e1.RunC01
 	fw.Families["C02"] = e1.RunC02
 	fw.Families["C03"] = e1.RunC03
+	fw.Families["C18"] = e1.RunC18
 }
